@@ -31,7 +31,7 @@ func selfTestImpl(prop, dir string) any {
 		}
 	}
 	res := make([]mutantResult, len(ms))
-	sem := make(chan struct{}, 6)
+	sem := make(chan struct{}, 5) // each variant is type-checked from source (about 3 GB, 15 s)
 	var wg sync.WaitGroup
 	for i, m := range ms {
 		wg.Add(1)
@@ -126,7 +126,33 @@ func selfTestImpl(prop, dir string) any {
 			bres[i] = r
 		}(i, b)
 	}
+	// self-consistency of the second pass: the rules evaluated on the normal form of the unchanged sources
+	nf := mutantResult{ID: prop + "-normal-form", Why: "all rules of the property evaluated on the inlined normal form of the unchanged sources (what the second pass falls back on after a refactor)", Expect: "no alarm"}
+	wg.Add(1)
+	go func() {
+		defer wg.Done()
+		sem <- struct{}{}
+		defer func() { <-sem }()
+		out, _ := exec.Command(exe, "-property", prop, "-dir", dir, "-normal-form", "-hits").CombinedOutput()
+		text := string(out)
+		switch {
+		case strings.Contains(text, "MUTANT-HIT "):
+			nf.Outcome = "not-quiet"
+			for _, l := range strings.Split(text, "\n") {
+				if strings.HasPrefix(l, "MUTANT-HIT ") {
+					if f := strings.Fields(l); len(f) >= 3 && len(nf.Hits) < 6 {
+						nf.Hits = append(nf.Hits, f[2])
+					}
+				}
+			}
+		case strings.Contains(text, "MUTANT-DONE"):
+			nf.Outcome = "quiet"
+		default:
+			nf.Outcome = "unavailable: " + clip(text, 120)
+		}
+	}()
 	wg.Wait()
+	fmt.Printf("normal-form %s %v\n", nf.Outcome, nf.Hits)
 	cnt := map[string]int{}
 	bcnt := map[string]int{}
 	for _, r := range bres {
@@ -139,5 +165,6 @@ func selfTestImpl(prop, dir string) any {
 	}
 	return map[string]any{"mutants": len(res), "outcomes": cnt, "results": res,
 		"behaviour_preserving_edits": len(bres), "behaviour_preserving_outcomes": bcnt, "behaviour_preserving_results": bres,
+		"normal_form_self_consistency": nf,
 		"method": "each mutant is a source edit applied via packages.Config.Overlay to the current /repo tree and analysed in its own process; it must type-check and make the named rule instance fire"}
 }
